@@ -201,10 +201,49 @@ def register(w):
             return z3.BoolVal(True)
         t1, E = r.items
         return closed_dag(c.ex, c["nodes"], E.arr, t1.term, c["start_value"].term)
+    # worklist invariant of the collector: everything the collected nodes read is constant, already visited or still queued;
+    # everything visited is constant or produced by a collected node / the source transpose
+    def inv_collect_chain(lc):
+        ex = lc.ex
+        h = H(ex)
+        nodes, start = lc["nodes"], lc["start_value"].term
+        allowed, visited, wl, st = lc["allowed_nodes"], lc["visited_values"], lc["worklist"], lc["source_transpose"]
+        if not (isinstance(allowed, VSet) and isinstance(visited, VSet) and isinstance(wl, VSeq)):
+            raise OutOfSubset("collector variables have unexpected kinds")
+        st_none = z3.BoolVal(True) if isinstance(st, VNone) else (st.isnone if isinstance(st, VOpt) else z3.BoolVal(False))
+        st_term = null_of(NODE) if isinstance(st, VNone) else (st.val.term if isinstance(st, VOpt) else st.term)
+        e, j, v, m, k = z3.Const("e!cc", N), z3.Int("j!cc"), z3.Const("v!cc", V), z3.Const("m!cc", N), z3.Int("k!cc")
+        ins = ex.heap_arrays(NODE, "inputs")
+        x = sel(sel(ins[0], e), j)
+        queued = lambda val: z3.Exists([k], z3.And(0 <= k, k < wl.length, sel(wl.arrs[0], k) == val))  # noqa: E731
+        made = lambda val: z3.Exists([m], z3.And(z3.Or(sel(allowed.arr, m), z3.And(z3.Not(st_none), m == st_term)), GM_produces(ex, m, val)))  # noqa: E731
+        return [("length", wl.length >= 0),
+                ("source_is_a_transpose_of_the_node_list", z3.Or(st_none, z3.And(h.op(st_term) == z3.StringVal("Transpose"), h.in_seq(nodes, st_term)))),
+                ("collected_nodes_are_elementwise_nodes_of_the_node_list", z3.ForAll([e], z3.Implies(sel(allowed.arr, e), z3.And(is_ew(h.op(e)), h.in_seq(nodes, e))))),
+                ("inputs_of_collected_nodes_are_constant_visited_or_queued", z3.ForAll([e, j], z3.Implies(z3.And(sel(allowed.arr, e), 0 <= j, j < sel(ins[1], e)),
+                                                                                                   z3.Or(x == null_of(VALUE), scalar_const(x, hv(ex)), sel(visited.arr, x), queued(x))))),
+                ("visited_values_are_constant_or_produced_inside", z3.ForAll([v], z3.Implies(sel(visited.arr, v), z3.Or(scalar_const(v, hv(ex)), made(v))))),
+                ("start_value_is_visited_or_queued", z3.Or(sel(visited.arr, start), queued(start)))]
+
+    def inv_collect_inputs(lc):
+        ex = lc.ex
+        wl, producer = lc["worklist"], lc["producer"]
+        pre_wl = lc.old("worklist") if "worklist" in lc.pre else None
+        k, j = z3.Int("k!ci"), z3.Int("j!ci")
+        ins = lc.seq
+        x = sel(ins.arrs[0], j)
+        queued = lambda val: z3.Exists([k], z3.And(0 <= k, k < wl.length, sel(wl.arrs[0], k) == val))  # noqa: E731
+        items = [("inputs_so_far_are_constant_or_queued", z3.ForAll([j], z3.Implies(z3.And(0 <= j, j < lc.idx), z3.Or(x == null_of(VALUE), scalar_const(x, hv(ex)), queued(x)))))]
+        if pre_wl is not None:
+            items.append(("queue_only_grows", z3.And(wl.length >= pre_wl.length, z3.ForAll([k], z3.Implies(z3.And(0 <= k, k < pre_wl.length), sel(wl.arrs[0], k) == sel(pre_wl.arrs[0], k))))))
+        return items
+
     w.add_contract(Contract(
-        f"{MO}:_collect_transpose_elementwise_chain", params={"nodes": Seq(Ref(NODE)), "start_value": Ref(VALUE)}, ret=Opt(Tup(Ref(NODE), SetT(Ref(NODE)))), assumed=True, uf=True, reads_heap=True,
+        f"{MO}:_collect_transpose_elementwise_chain", params={"nodes": Seq(Ref(NODE)), "start_value": Ref(VALUE)}, ret=Opt(Tup(Ref(NODE), SetT(Ref(NODE)))),
         ensures=[("closed_elementwise_dag_below_one_transpose", post_collect_chain)],
-        note="worklist collector (sets, early returns): not under contract; exercised by the bounded family C02_transpose_dag_family",
+        loops={0: LoopSpec(invariant=inv_collect_chain, heap_unchanged=True, label="worklist"), 1: LoopSpec(invariant=inv_collect_inputs, heap_unchanged=True, label="inputs")},
+        local_types={"worklist": Seq(Ref(VALUE)), "allowed_nodes": SetT(Ref(NODE)), "visited_values": SetT(Ref(VALUE))},
+        raises=set(), props=["C02", "C12"], deep_feasibility=True, witnesses=["C02_transpose_dag_family"],
     ))
 
     def t7_vars(lc):
